@@ -43,19 +43,19 @@ SHARES_MC = [
 ]
 SHARES_GEN = [
     dict(name="gendev", tiers=["dev"], consts=shares_consts([1], [1, 2], [2], ["c"], ["v1"], 1), overrides=ov("InitAB", "CapDev"),
-         harness=[shares_harness("InitAB")], shards=14, rej_sample=2, explore=1),
+         harness=[shares_harness("InitAB")], shards=14, rej_sample=0, explore=1),
     # quick A: stake operations, transfers (incl. to oneself, full / partial, new / existing recipient), rewards, one slash
     dict(name="genqA", tiers=["quick"], consts=shares_consts([1], [1, 2], [2], NOSP, ["v1"], 3), overrides=ov("InitAB", "CapQuickA"),
-         harness=[shares_harness("InitAB")], shards=14, rej_sample=2, explore=1),
+         harness=[shares_harness("InitAB")], shards=14, rej_sample=0, explore=1),
     # quick B: allowances, transferFrom
     dict(name="genqB", tiers=["quick"], consts=shares_consts([1], [1, 2], [1, 2], ["c"], [], 3), overrides=ov("InitAB", "CapQuickB"),
-         harness=[shares_harness("InitAB")], shards=14, rej_sample=2, explore=1),
+         harness=[shares_harness("InitAB")], shards=14, rej_sample=0, explore=1),
     # thorough A: as quick A, one step deeper, two reward blocks, both validators slashable, b delegates to both validators
     dict(name="gentA", tiers=["thorough"], consts=shares_consts([1], [1, 2], [2], NOSP, V2, 4), overrides=ov("InitABC", "CapThoroughA"),
-         harness=[shares_harness("InitABC")], shards=16, rej_sample=10, explore=2, timeout=2400),
+         harness=[shares_harness("InitABC")], shards=16, rej_sample=0, explore=2, timeout=2400),
     # thorough B: two spenders, allowances 1 and 2, two approvals, two transferFrom
     dict(name="gentB", tiers=["thorough"], consts=shares_consts([1], [1, 2], [1, 2], ["b", "c"], [], 3), overrides=ov("InitAB", "CapThoroughB"),
-         harness=[shares_harness("InitAB")], shards=16, rej_sample=10, explore=2, timeout=2400),
+         harness=[shares_harness("InitAB")], shards=16, rej_sample=0, explore=2, timeout=2400),
     # thorough C: token amounts 1 and 2 (full undelegation / redelegation of a's stake)
     dict(name="gentC", tiers=["thorough"], consts=shares_consts([1, 2], [1, 2], [2], NOSP, ["v1"], 3), overrides=ov("InitABC", "CapThoroughA"),
          harness=[shares_harness("InitABC")], shards=16, rej_sample=10, explore=2, timeout=2400),
